@@ -128,6 +128,15 @@ pub fn run(ctx: &Ctx, model: &mut Model, rep: &mut Report) {
     rep.rule = "type-directed Markdown documents (headings ATX/setext, paragraphs with emphasis/code/links/wiki-links/images/autolinks, fenced code, rules, quotes, bullet/ordered lists nested with multi-block items, tables, block references, front-matter; varied markers/numbering/looseness; notes in root and sub-directories) inside the well-formedness class of the _partial theorems; correspondence: content atoms of the model's formatted text vs atoms of the real formatted text; oracle: atoms(input) = atoms(format(input)) for import/update_key/LSP routes and both refs_extension settings, alone and inside a library; non-trivial = ≥2 blocks; distinct by text".to_string();
     if let Some(path) = &ctx.replay {
         let v: serde_json::Value = serde_json::from_str(&std::fs::read_to_string(path).unwrap()).unwrap();
+        if let Some(r) = crate::cli::replay(&v) {
+            rep.evaluations += 1;
+            if let Some(w) = r {
+                let mut f = v.clone();
+                f["what"] = json!(w);
+                rep.fail(f);
+            }
+            return;
+        }
         let (k, t) = (v["key"].as_str().unwrap_or("a"), v["text"].as_str().unwrap_or(""));
         rep.evaluations += 1;
         if let Some(what) = check_doc(k, t) {
@@ -162,6 +171,16 @@ pub fn run(ctx: &Ctx, model: &mut Model, rep: &mut Report) {
         // every third document: table cells with inline markup (oracle only: the model renders plain-word tables)
         p.table_markup = i % 3 == 1;
         let text = if i % 97 == 5 { gen::long_ordered_list(&mut r) } else { gen::document(&mut r, &p) };
+        // the command-line binary: `iwe normalize` with an edited `.iwe/config.toml` writes exactly the export
+        if i % 50 == 7 {
+            rep.count("cli_cases");
+            rep.evaluations += 1;
+            let lib = vec![(key.clone(), text.clone()), ("zz-other".to_string(), "# Other\n\n[back](a)\n".to_string())];
+            let case = crate::cli::CliCase { lib: &lib, ext: if i % 100 == 7 { "" } else { ".md" }, sub: if i % 3 == 0 { "" } else { "my notes" }, squash: None, paths_depth: 4, tag: &format!("c01-{}", i) };
+            if let Some(w) = crate::cli::check(&case) {
+                rep.fail(case.failure(w));
+            }
+        }
         let nblocks = text.split("\n\n").count();
         rep.case(&text, nblocks >= 2);
         if i < 2 {
